@@ -45,6 +45,7 @@ extern "C" void h_container() {
         uint32_t ot = types[vp_concrete(vp_choose(5, "objectType"))]; memcpy(o + 12, &ot, 4);
     }
     vp_fs_put("a.blf", img, n);
+    {
     File g;
 #if MODE == 1
     // scaled-down back-pressure threshold (fixed at 128 KiB by the API): the inflater is held back after one container,
@@ -57,5 +58,7 @@ extern "C" void h_container() {
     vp_note("count", cnt);
     VP_ASSERT(cnt <= 50);
     g.close();
+    }
+    vp_check_leaks();
     vp_reach("h_container:end");
 }
